@@ -91,6 +91,15 @@ MUT = [
     ("C06", "_get_typed_value: date-value with an offset read through Date.decode of the first 19 characters", True, [(ET,
         '            if "T" in read_attribute:\n                return (DateTime.decode(read_attribute), value_type)',
         '            if "T" in read_attribute:\n                return (DateTime.decode(read_attribute[:19]), value_type)')]),
+    ("C06", "seeded C06-2: meta:value-type written only for a new metadata entry (needs an overwrite of another type)", True, [(META,
+        "            metadata.set_attribute(\"meta:name\", name)\n            self.get_meta_body().append(metadata)\n        metadata.set_attribute(\"meta:value-type\", value_type)\n",
+        "            metadata.set_attribute(\"meta:name\", name)\n            metadata.set_attribute(\"meta:value-type\", value_type)\n            self.get_meta_body().append(metadata)\n")]),
+    ("C06", "Cell.value setter: string property setter without clear() (stale value attributes of the previous type)", True, [(CELL,
+        "        self.clear()\n        if value is None:\n            value_str = \"\"", "        if value is None:\n            value_str = \"\"")]),
+    ("C06", "set_value_and_type: office:currency not removed (visible only over a currency cell through the raw call)", True, [(ET,
+        '            "office:currency",\n            "calcext:value-type",', '            "calcext:value-type",')]),
+    ("C06", "REWRITE Cell.set_value without clear() (the removal list of set_value_and_type does the work)", False, [(CELL,
+        "        self.clear()\n        text = self.set_value_and_type(", "        text = self.set_value_and_type(")]),
     ("C06", "REWRITE str branch moved before datetime in set_value_and_type; set literal as tuple in Cell.value", False, [
         (ET, "        elif isinstance(value, datetime):\n            if value_type is None:\n                value_type = \"date\"\n            if text is None:\n                text = str(DateTime.encode(value))\n            value = DateTime.encode(value)\n",
              "        elif isinstance(value, str):\n            if value_type is None:\n                value_type = \"string\"\n            if text is None:\n                text = value\n        elif isinstance(value, datetime):\n            if value_type is None:\n                value_type = \"date\"\n            if text is None:\n                text = str(DateTime.encode(value))\n            value = DateTime.encode(value)\n"),
